@@ -52,6 +52,20 @@ Theorem C12_produce_record_format : forall v,
 Proof. exact produce_record_format. Qed.
 Print Assumptions C12_produce_record_format.
 
+(* the requests that set a connection up are negotiated like every other request: ApiVersions
+   first (v0), then SaslHandshake at SelectVersion of the advertised range of key 17, then the
+   raw token exchange exactly when that is 0, else SaslAuthenticate at the version negotiated
+   for key 36 (C12_connection_version applies to it as to every key) *)
+Theorem C12_setup_requests_negotiated : forall client adv1 adv2 bmin bmax,
+  (forall e, In e adv2 -> fst e <> K_SaslHandshake) ->
+  let neg := negotiate client (adv1 ++ (K_SaslHandshake, (bmin, bmax)) :: adv2) in
+  let hv := select_version (fst (lookup_range client K_SaslHandshake)) (snd (lookup_range client K_SaslHandshake)) bmin bmax in
+  connection_setup true neg =
+  [SReq K_ApiVersions 0; SReq K_SaslHandshake hv;
+   if hv =? 0 then SRawToken else SReq K_SaslAuthenticate (conn_version neg K_SaslAuthenticate)].
+Proof. exact connection_setup_versions. Qed.
+Print Assumptions C12_setup_requests_negotiated.
+
 (* ---- produce / fetch / raw-produce: routed by partition leader ---- *)
 (* [brokers_wf]: the Brokers map is keyed by the ID field and ids are >= 0 (see C12_layout_wf).
    Ok b  : every named topic is known and b is the broker the layout designates for EVERY
@@ -122,8 +136,8 @@ Definition refute_md : metadata :=
   {| md_controller := -1;
      md_brokers := [ {| mb_id := 0; mb_addr := 1 |}; {| mb_id := 1; mb_addr := 2 |} ];
      md_topics := [ {| mt_name := [116%N]; mt_err := 0; mt_internal := false;
-                       mt_parts := [ {| mp_idx := 0; mp_err := 5; mp_leader := -1 |};
-                                     {| mp_idx := 1; mp_err := 0; mp_leader := 1 |} ] |} ] |}.
+                       mt_parts := [ {| mp_idx := 0; mp_err := 5; mp_leader := -1; mp_replicas := [-1; 0]; mp_isr := [-1]; mp_offline := [] |};
+                                     {| mp_idx := 1; mp_err := 0; mp_leader := 1; mp_replicas := [1; 0]; mp_isr := [1]; mp_offline := [] |} ] |} ] |}.
 
 (* ---- create-topics, delete-topics, create-partitions, ...: the controller ---- *)
 Theorem C12_route_controller : forall c conns api fc b,
@@ -271,6 +285,40 @@ Theorem C12_filter_needs_sorted :
 Proof. exact filter_needs_sorted. Qed.
 Print Assumptions C12_filter_needs_sorted.
 
+(* the cache hands every topic entry back untouched -- partitions with leader, replicas, ISR,
+   offline replicas and error codes ride along -- or it is the Unknown entry *)
+Theorem C12_filter_preserves_partition_fields : forall names m t,
+  In t (md_topics (filter_metadata (Some names) m)) ->
+  In t (md_topics m) \/ exists n, In n names /\ t = unknown_topic n.
+Proof. exact filter_preserves_partition_fields. Qed.
+Print Assumptions C12_filter_preserves_partition_fields.
+
+(* Client.Metadata's public view of a (cached, filtered) response, field by field: the brokers
+   as listed; per topic name, internal flag and error; per partition id, error, and leader /
+   replicas / ISR each looked up id by id in the broker list (ISR from IsrNodes, replicas from
+   ReplicaNodes) *)
+Theorem C12_client_metadata_fields : forall m,
+  cm_brokers (client_metadata m) = md_brokers m
+  /\ map ct_name (cm_topics (client_metadata m)) = map mt_name (md_topics m)
+  /\ forall t, In t (md_topics m) ->
+       In (client_topic (md_brokers m) t) (cm_topics (client_metadata m))
+       /\ ct_internal (client_topic (md_brokers m) t) = mt_internal t
+       /\ ct_err (client_topic (md_brokers m) t) = mt_err t
+       /\ map cp_id (ct_parts (client_topic (md_brokers m) t)) = map mp_idx (mt_parts t)
+       /\ forall p, In p (mt_parts t) ->
+            In (client_partition (md_brokers m) p) (ct_parts (client_topic (md_brokers m) t))
+            /\ cp_leader (client_partition (md_brokers m) p) = cm_lookup (md_brokers m) (mp_leader p)
+            /\ cp_replicas (client_partition (md_brokers m) p) = map (cm_lookup (md_brokers m)) (mp_replicas p)
+            /\ cp_isr (client_partition (md_brokers m) p) = map (cm_lookup (md_brokers m)) (mp_isr p)
+            /\ cp_err (client_partition (md_brokers m) p) = mp_err p.
+Proof. exact client_metadata_fields. Qed.
+Print Assumptions C12_client_metadata_fields.
+
+Theorem C12_client_metadata_lookup : forall bs b,
+  In b bs -> NoDup (map mb_id bs) -> cm_lookup bs (mb_id b) = b.
+Proof. exact cm_lookup_unique. Qed.
+Print Assumptions C12_client_metadata_lookup.
+
 (* ---- the pool as a transition system ---- *)
 (* After an update with metadata M completed, and until the next successful update (the
    labels in [mid] are requests and failed refreshes), the view is the one built from M and a
@@ -350,6 +398,22 @@ Theorem C12_pool_alive_while_registered_or_used : forall ls s,
 Proof. exact pool_alive_while_registered_or_used. Qed.
 Print Assumptions C12_pool_alive_while_registered_or_used.
 
+(* update deletes, then adds: a broker that keeps its id but is re-registered at a new address
+   (or rack) is in both sets, and the id ends up mapped to the NEW connection group.  The order
+   matters: adding first and deleting afterwards leaves the id without a group. *)
+Theorem C12_update_moved_broker : forall p m id b_new,
+  conns_ok p ->
+  mget Z.eqb (c_brokers (make_layout (normalize m))) id = Some b_new ->
+  mget Z.eqb (ps_conns (update p (Some m) None)) id = Some b_new.
+Proof. exact update_moved_broker. Qed.
+Print Assumptions C12_update_moved_broker.
+
+Theorem C12_update_order_matters : forall (conns : list (Z * broker)) id b,
+  mget Z.eqb (mset Z.eqb (mdel Z.eqb conns id) id b) id = Some b
+  /\ mget Z.eqb (mdel Z.eqb (mset Z.eqb conns id b) id) id = None.
+Proof. exact update_order_matters. Qed.
+Print Assumptions C12_update_order_matters.
+
 (* T13: the three grabPool steps of the model do take their reference in /repo's CURRENT source:
    every return statement of Transport.grabPool is preceded by p.ref() or constructs the pool
    (call facts of harness/cmd/vskel, regenerated on every run; Model/RoutingSkeleton.v) *)
@@ -376,10 +440,10 @@ Definition ex_md : metadata :=
   {| md_controller := 2;
      md_brokers := [ {| mb_id := 2; mb_addr := 3 |}; {| mb_id := 0; mb_addr := 1 |}; {| mb_id := 1; mb_addr := 2 |} ];
      md_topics := [ {| mt_name := [117%N]; mt_err := 0; mt_internal := false;
-                       mt_parts := [ {| mp_idx := 1; mp_err := 0; mp_leader := 2 |};
-                                     {| mp_idx := 0; mp_err := 0; mp_leader := 1 |} ] |};
+                       mt_parts := [ {| mp_idx := 1; mp_err := 0; mp_leader := 2; mp_replicas := [2; 0]; mp_isr := [2]; mp_offline := [] |};
+                                     {| mp_idx := 0; mp_err := 0; mp_leader := 1; mp_replicas := [1; 0]; mp_isr := [1]; mp_offline := [] |} ] |};
                     {| mt_name := [116%N]; mt_err := 0; mt_internal := false;
-                       mt_parts := [ {| mp_idx := 0; mp_err := 0; mp_leader := 1 |} ] |} ] |}.
+                       mt_parts := [ {| mp_idx := 0; mp_err := 0; mp_leader := 1; mp_replicas := [1; 0]; mp_isr := [1]; mp_offline := [] |} ] |} ] |}.
 
 Example C12_route_example :
   let c := make_layout (normalize ex_md) in
